@@ -181,3 +181,96 @@ Definition cp_prog_of (bs : sigdef -> N) (c : content) : list wop :=
   ++ flat_map (cp_sig_ops bs) (c_signals c).
 Definition cp_prog_with (bs : sigdef -> N) (p : list wop) : list wop := cp_prog_of bs (spec_of p).
 Definition cp_prog (p : list wop) : list wop := cp_prog_with sg_spd p.    (* blocks of samples_per_data *)
+
+(* ---- an executable (sufficient) check of [cp_reissue]  (theorem cp_reissue_b_sound) ---- *)
+Definition cp_strv_eq_dec (x y : strv) : {x = y} + {x <> y}.
+Proof. decide equality; apply (list_eq_dec N.eq_dec). Defined.
+Definition cp_srcdef_eq_dec (x y : srcdef) : {x = y} + {x <> y}.
+Proof. decide equality; try apply cp_strv_eq_dec; apply N.eq_dec. Defined.
+Definition cp_sigdef_eq_dec (x y : sigdef) : {x = y} + {x <> y}.
+Proof. decide equality; try apply cp_strv_eq_dec; apply N.eq_dec. Defined.
+Definition cp_anno_eq_dec (x y : anno) : {x = y} + {x <> y}.
+Proof. decide equality; try apply (list_eq_dec N.eq_dec); try apply N.eq_dec; apply Z.eq_dec. Defined.
+Definition cp_udata_eq_dec (x y : udata) : {x = y} + {x <> y}.
+Proof. decide equality; try apply (list_eq_dec N.eq_dec); apply N.eq_dec. Defined.
+Definition cp_zz_eq_dec (x y : Z * Z) : {x = y} + {x <> y}.
+Proof. decide equality; apply Z.eq_dec. Defined.
+Definition cp_eqb {A : Type} (dec : forall x y : A, {x = y} + {x <> y}) (l1 l2 : list A) : bool :=
+  if list_eq_dec dec l1 l2 then true else false.
+
+Fixpoint cp_contig_b (f : Z) (bl : list (Z * list N)) (strm : list N) : bool :=
+  match bl with
+  | [] => match strm with [] => true | _ => false end
+  | (g, smp) :: r =>
+    (if Z.eq_dec g f then true else false)
+    && (match smp with [] => false | _ => true end)
+    && cp_eqb N.eq_dec (firstn (length smp) strm) smp
+    && cp_contig_b (f + Z.of_nat (length smp)) r (skipn (length smp) strm)
+  end.
+
+(* the signal ids the data calls of a program mention *)
+Definition cp_data_ids (p : list wop) : list N :=
+  flat_map (fun o => match o with WFsr j _ _ | WOmit j _ | WAnno j _ | WUtc j _ _ => [j] | _ => [] end) p.
+
+Definition cp_reissue_b (p q : list wop) : bool :=
+  let a := cp_accepted p in
+  let c := spec_of p in
+  let ids := map (fun s => sg_id (ss_def s)) (c_signals c) ++ cp_data_ids q ++ cp_data_ids a in
+  forallb cp_copy_op q
+  && cp_eqb cp_srcdef_eq_dec (map cp_norm_src (cp_srcs q)) (map cp_norm_src (cp_srcs a))
+  && cp_eqb cp_sigdef_eq_dec (map cp_norm_sig (cp_sigs q)) (map cp_norm_sig (map sp_align (cp_sigs a)))
+  && forallb (fun i => cp_eqb cp_anno_eq_dec (cp_annos i q) (cp_annos i a)) ids
+  && forallb (fun i => cp_eqb cp_zz_eq_dec (cp_utcs i q) (cp_utcs i a)) ids
+  && cp_eqb cp_udata_eq_dec (cp_uds q) (flat_map cp_ud_store (cp_uds a))
+  && forallb (fun i => match find_sig c i with
+                       | Some s => match ss_first s with
+                                   | Some f => cp_contig_b f (cp_fsr i q) (ss_samples s)
+                                   | None => match cp_fsr i q with [] => true | _ => false end
+                                   end
+                       | None => match cp_fsr i q with [] => true | _ => false end
+                       end) ids
+  && cp_dbu q.
+
+(* ---- a copy that leaves blocks out (what jls_copy does with the blocks the ORIGINAL writer omitted:
+        they exist as summaries only, there is no DATA chunk to re-issue) ---- *)
+Definition cp_drop (keep : N -> Z -> bool) (q : list wop) : list wop :=
+  filter (fun o => match o with WFsr i sid _ => keep i sid | _ => true end) q.
+
+(* ---- concrete programs for the Examples ---- *)
+Definition cp_ex_s1 : srcdef :=
+  {| so_id := 1; so_name := SBytes [97;98]; so_vendor := SNull; so_model := SBytes []; so_version := SBytes [49]; so_serial := SNull |}.
+Definition cp_ex_s2 : srcdef :=
+  {| so_id := 7; so_name := SNull; so_vendor := SBytes [118]; so_model := SNull; so_version := SNull; so_serial := SBytes [50] |}.
+Definition cp_ex_g1 : sigdef :=
+  {| sg_id := 3; sg_src := 7; sg_type := JLS_SIGNAL_TYPE_FSR; sg_dtype := JLS_DATATYPE_U8; sg_rate := 1000;
+     sg_spd := 60; sg_sdf := 20; sg_eps := 15; sg_sumdf := 0; sg_adf := 0; sg_udf := 3; sg_name := SBytes [120]; sg_units := SNull |}.
+Definition cp_ex_g2 : sigdef :=
+  {| sg_id := 2; sg_src := 1; sg_type := JLS_SIGNAL_TYPE_FSR; sg_dtype := JLS_DATATYPE_F32; sg_rate := 48000;
+     sg_spd := 100; sg_sdf := 11; sg_eps := 100; sg_sumdf := 10; sg_adf := 10; sg_udf := 10; sg_name := SNull; sg_units := SBytes [86] |}.
+Definition cp_ex_an1 : anno := {| an_ts := 6; an_y := 1065353216; an_type := 1; an_group := 2; an_stype := 2; an_data := [104;105] |}.
+Definition cp_ex_an2 : anno := {| an_ts := 6; an_y := 0; an_type := 0; an_group := 0; an_stype := 1; an_data := [] |}.
+Definition cp_ex_anbad : anno := {| an_ts := 6; an_y := 0; an_type := 0; an_group := 0; an_stype := 0; an_data := [] |}.
+(* 2 sources, 2 FSR signals (u8, f32), a gap (ids 8..11 of signal 3), overlapping writes, annotations (also on signal 0),
+   UTC entries, user data (one of storage type INVALID, one with meta above 12 bits), omit / flush calls, and SIX rejected
+   calls: data on the undefined signal 9, a repeated signal definition, an annotation with storage type 0, FSR data on
+   the VSR signal 0, a repeated source definition *)
+Definition cp_ex_p : list wop :=
+  [WSrc cp_ex_s1; WUd {| ud_meta := 70000; ud_stype := 1; ud_data := [1;2;3] |}; WSrc cp_ex_s2; WSig cp_ex_g1; WFsr 3 5 [1;2;3];
+   WAnno 3 cp_ex_an1; WSig cp_ex_g2; WFsr 2 (-3) [10;11]; WFsr 3 12 [4;5]; WUtc 3 5 1000; WFsr 9 0 [1]; WAnno 0 cp_ex_an2;
+   WFsr 3 11 [7;8;9;10;11]; WUd {| ud_meta := 1; ud_stype := 0; ud_data := [9] |}; WOmit 3 1; WFsr 2 2 [12]; WFlush;
+   WSig cp_ex_g1; WAnno 2 cp_ex_anbad; WUtc 2 0 5; WUtc 3 9 2000; WAnno 3 cp_ex_an2;
+   WUd {| ud_meta := 1; ud_stype := 3; ud_data := [123;125] |}; WFsr 0 0 [1]; WSrc cp_ex_s1].
+(* a re-issue written by hand, in an order and with blocks that differ from cp_prog's: strings as read, aligned
+   definitions, data interleaved in "file order" *)
+Definition cp_ex_q : list wop :=
+  [WSrc {| so_id := 1; so_name := SBytes [97;98]; so_vendor := SBytes []; so_model := SBytes []; so_version := SBytes [49]; so_serial := SBytes [] |};
+   WUd {| ud_meta := 368; ud_stype := 1; ud_data := [1;2;3] |};
+   WSrc {| so_id := 7; so_name := SBytes []; so_vendor := SBytes [118]; so_model := SBytes []; so_version := SBytes []; so_serial := SBytes [50] |};
+   WSig {| sg_id := 3; sg_src := 7; sg_type := 0; sg_dtype := JLS_DATATYPE_U8; sg_rate := 1000;
+           sg_spd := 64; sg_sdf := 32; sg_eps := 20; sg_sumdf := 20; sg_adf := 100; sg_udf := 10; sg_name := SBytes [120]; sg_units := SBytes [] |};
+   WAnno 3 cp_ex_an1;
+   WSig {| sg_id := 2; sg_src := 1; sg_type := 0; sg_dtype := JLS_DATATYPE_F32; sg_rate := 48000;
+           sg_spd := 80; sg_sdf := 16; sg_eps := 100; sg_sumdf := 10; sg_adf := 10; sg_udf := 10; sg_name := SBytes []; sg_units := SBytes [86] |};
+   WUtc 3 5 1000; WAnno 0 cp_ex_an2; WFsr 3 5 [1;2;3;0]; WUtc 2 0 5; WFsr 3 9 [0;0;0;4;5;10];
+   WUtc 3 9 2000; WAnno 3 cp_ex_an2; WUd {| ud_meta := 1; ud_stype := 3; ud_data := [123;125] |};
+   WFsr 2 (-3) [10;11;2143289344]; WFsr 3 15 [11]; WFsr 2 0 [2143289344;2143289344;12]].
